@@ -274,6 +274,25 @@ class C19(Check):
                         out.expect('traces_identically', same, via=nm, quantity=k,
                                    max_abs=float(np.nanmax(np.abs(recs[0][k] - r[k]))) if recs[0][k].shape == r[k].shape
                                    and recs[0][k].size else None)
+        # Optic.trace() as well: it is the entry point that evaluates the polarized intensity (coatings, input state)
+        if 'scatter' not in feats:
+            flds = o.fields.get_field_coords()
+            hx_, hy_ = flds[len(flds) - 1]
+            ints = []
+            for lens in (o, o2, o3):
+                try:
+                    r = lens.trace(hx_, hy_, w, 2, 'hexapolar')
+                    ints.append(np.array(r.i, dtype=float))
+                except ValueError as e:
+                    if 'Chebyshev' in str(e) or 'parallel to x-axis' in str(e):
+                        ints = None
+                        break
+                    raise
+            if ints:
+                for nm, ii in (('dict', ints[1]), ('file', ints[2])):
+                    out.expect('traces_identically', ints[0].shape == ii.shape and np.array_equal(ints[0], ii, equal_nan=True),
+                               via=nm, quantity='intensity of Optic.trace',
+                               max_abs=float(np.nanmax(np.abs(ints[0] - ii))) if ints[0].shape == ii.shape and ii.size else None)
         # paraxial accessors
         P, P2 = o.paraxial, o2.paraxial
         for nm in ('f1', 'f2', 'F1', 'F2', 'EPL', 'EPD', 'XPL', 'XPD', 'FNO', 'magnification'):
